@@ -80,6 +80,14 @@ def quiet():
         yield out, err, wl
 
 
+@contextlib.contextmanager
+def quiet_io():
+    """swallow stdout/stderr only: the warning filters are left alone, so a leak of them stays visible"""
+    out, err = io.StringIO(), io.StringIO()
+    with contextlib.redirect_stdout(out), contextlib.redirect_stderr(err):
+        yield out, err
+
+
 def clean_env():
     env = {k: v for k, v in os.environ.items() if not k.startswith(('XDOCTEST_', 'PYTEST_'))}
     env['PYTHONPATH'] = os.path.join(os.environ.get('VP_REPO', '/repo'), 'src')
